@@ -1,0 +1,467 @@
+// This Source Code Form is subject to the terms of the Mozilla Public
+// License, v. 2.0. If a copy of the MPL was not distributed with this
+// file, You can obtain one at http://mozilla.org/MPL/2.0/.
+//
+// Copyright (c) DUSK NETWORK. All rights reserved.
+
+//! Verification hooks (cargo feature `verif`, off by default).
+//!
+//! Thin `pub` wrappers over crate-private kernels and decoders so that an
+//! external monitor can compare them with reference models, plus two
+//! observation points: a per-thread "force prove" switch and a scheduling
+//! observer. Nothing in here changes behaviour when no observer is installed
+//! and the switch is off.
+
+#![allow(missing_docs)]
+
+use alloc::vec::Vec;
+
+use dusk_bls12_381::{BlsScalar, G1Affine};
+use dusk_bytes::{DeserializableSlice, Serializable};
+use merlin::Transcript;
+
+use crate::commitment_scheme::{
+    AggregateProof, CommitKey, Commitment, OpeningKey, PublicParameters,
+};
+use crate::error::Error;
+use crate::fft::{EvaluationDomain, Evaluations, Polynomial};
+use crate::proof_system::{ProverKey, VerifierKey};
+
+// ---------------------------------------------------------------------------
+// FFT kernels
+// ---------------------------------------------------------------------------
+
+pub fn domain_size(num_coeffs: usize) -> Result<usize, Error> {
+    EvaluationDomain::new(num_coeffs).map(|d| d.size())
+}
+
+pub fn domain_group_gen(num_coeffs: usize) -> Result<BlsScalar, Error> {
+    EvaluationDomain::new(num_coeffs).map(|d| d.group_gen)
+}
+
+pub fn fft(num_coeffs: usize, v: &[BlsScalar]) -> Result<Vec<BlsScalar>, Error> {
+    Ok(EvaluationDomain::new(num_coeffs)?.fft(v))
+}
+
+pub fn ifft(
+    num_coeffs: usize,
+    v: &[BlsScalar],
+) -> Result<Vec<BlsScalar>, Error> {
+    Ok(EvaluationDomain::new(num_coeffs)?.ifft(v))
+}
+
+pub fn coset_fft(
+    num_coeffs: usize,
+    v: &[BlsScalar],
+) -> Result<Vec<BlsScalar>, Error> {
+    Ok(EvaluationDomain::new(num_coeffs)?.coset_fft(v))
+}
+
+pub fn coset_ifft(
+    num_coeffs: usize,
+    v: &[BlsScalar],
+) -> Result<Vec<BlsScalar>, Error> {
+    Ok(EvaluationDomain::new(num_coeffs)?.coset_ifft(v))
+}
+
+pub fn evaluate_all_lagrange_coefficients(
+    num_coeffs: usize,
+    tau: BlsScalar,
+) -> Result<Vec<BlsScalar>, Error> {
+    Ok(EvaluationDomain::new(num_coeffs)?
+        .evaluate_all_lagrange_coefficients(tau))
+}
+
+pub fn evaluate_vanishing_polynomial(
+    num_coeffs: usize,
+    tau: &BlsScalar,
+) -> Result<BlsScalar, Error> {
+    Ok(EvaluationDomain::new(num_coeffs)?.evaluate_vanishing_polynomial(tau))
+}
+
+pub fn compute_vanishing_poly_over_coset(
+    num_coeffs: usize,
+    poly_degree: u64,
+) -> Result<Vec<BlsScalar>, Error> {
+    Ok(EvaluationDomain::new(num_coeffs)?
+        .compute_vanishing_poly_over_coset(poly_degree)
+        .evals)
+}
+
+pub fn matches_linear_poly_over_coset(
+    num_coeffs: usize,
+    evals: &[BlsScalar],
+) -> Result<bool, Error> {
+    Ok(EvaluationDomain::new(num_coeffs)?.matches_linear_poly_over_coset(evals))
+}
+
+pub fn matches_vanishing_poly_over_coset(
+    num_coeffs: usize,
+    poly_degree: u64,
+    evals: &[BlsScalar],
+) -> Result<bool, Error> {
+    Ok(EvaluationDomain::new(num_coeffs)?
+        .matches_vanishing_poly_over_coset(poly_degree, evals))
+}
+
+pub fn domain_elements(num_coeffs: usize) -> Result<Vec<BlsScalar>, Error> {
+    Ok(EvaluationDomain::new(num_coeffs)?.elements().collect())
+}
+
+// ---------------------------------------------------------------------------
+// Polynomial kernels (coefficient vectors in, coefficient vectors out)
+// ---------------------------------------------------------------------------
+
+fn poly(c: &[BlsScalar]) -> Polynomial {
+    Polynomial::from_coefficients_vec(c.to_vec())
+}
+
+pub fn poly_add(a: &[BlsScalar], b: &[BlsScalar]) -> Vec<BlsScalar> {
+    (&poly(a) + &poly(b)).to_vec()
+}
+
+pub fn poly_add_assign(a: &[BlsScalar], b: &[BlsScalar]) -> Vec<BlsScalar> {
+    let mut p = poly(a);
+    p += &poly(b);
+    p.to_vec()
+}
+
+pub fn poly_add_assign_scaled(
+    a: &[BlsScalar],
+    f: BlsScalar,
+    b: &[BlsScalar],
+) -> Vec<BlsScalar> {
+    let mut p = poly(a);
+    p += (f, &poly(b));
+    p.to_vec()
+}
+
+pub fn poly_sub(a: &[BlsScalar], b: &[BlsScalar]) -> Vec<BlsScalar> {
+    (&poly(a) - &poly(b)).to_vec()
+}
+
+pub fn poly_sub_assign(a: &[BlsScalar], b: &[BlsScalar]) -> Vec<BlsScalar> {
+    let mut p = poly(a);
+    p -= &poly(b);
+    p.to_vec()
+}
+
+pub fn poly_neg(a: &[BlsScalar]) -> Vec<BlsScalar> {
+    (-poly(a)).to_vec()
+}
+
+pub fn poly_mul(a: &[BlsScalar], b: &[BlsScalar]) -> Vec<BlsScalar> {
+    (&poly(a) * &poly(b)).to_vec()
+}
+
+pub fn poly_scale(a: &[BlsScalar], k: &BlsScalar) -> Vec<BlsScalar> {
+    (&poly(a) * k).to_vec()
+}
+
+pub fn poly_add_scalar(a: &[BlsScalar], k: &BlsScalar) -> Vec<BlsScalar> {
+    (&poly(a) + k).to_vec()
+}
+
+pub fn poly_sub_scalar(a: &[BlsScalar], k: &BlsScalar) -> Vec<BlsScalar> {
+    (&poly(a) - k).to_vec()
+}
+
+pub fn poly_evaluate(a: &[BlsScalar], z: &BlsScalar) -> BlsScalar {
+    poly(a).evaluate(z)
+}
+
+pub fn poly_degree(a: &[BlsScalar]) -> usize {
+    poly(a).degree()
+}
+
+pub fn poly_ruffini(a: &[BlsScalar], z: BlsScalar) -> Vec<BlsScalar> {
+    poly(a).ruffini(z).to_vec()
+}
+
+pub fn poly_to_var_bytes(a: &[BlsScalar]) -> Vec<u8> {
+    poly(a).to_var_bytes()
+}
+
+pub fn poly_from_slice(bytes: &[u8]) -> Result<Vec<BlsScalar>, Error> {
+    Polynomial::from_slice(bytes).map(|p| p.to_vec())
+}
+
+pub fn batch_inversion(v: &mut [BlsScalar]) {
+    crate::util::batch_inversion(v)
+}
+
+pub fn powers_of(s: &BlsScalar, max_degree: usize) -> Vec<BlsScalar> {
+    crate::util::powers_of(s, max_degree)
+}
+
+pub fn compute_barycentric_eval(
+    evaluations: &[BlsScalar],
+    point: &BlsScalar,
+    num_coeffs: usize,
+) -> Result<BlsScalar, Error> {
+    let domain = EvaluationDomain::new(num_coeffs)?;
+    Ok(crate::proof_system::proof::alloc::compute_barycentric_eval(
+        evaluations,
+        point,
+        &domain,
+    ))
+}
+
+/// The verifier's fused `L_1(z)` / `PI(z)` evaluation. `roots[j]` must be
+/// `omega^{-index_j}`, as `Verifier::new` precomputes them.
+pub fn compute_lagrange_and_barycentric_evaluations(
+    public_input_roots: &[BlsScalar],
+    evaluations: &[BlsScalar],
+    point: &BlsScalar,
+    num_coeffs: usize,
+) -> Result<(BlsScalar, BlsScalar), Error> {
+    let domain = EvaluationDomain::new(num_coeffs)?;
+    let z_h_eval = domain.evaluate_vanishing_polynomial(point);
+    crate::proof_system::proof::alloc::verif_lagrange_and_barycentric(
+        public_input_roots,
+        evaluations,
+        point,
+        &z_h_eval,
+        &domain,
+    )
+}
+
+// ---------------------------------------------------------------------------
+// Evaluations / domain decoders
+// ---------------------------------------------------------------------------
+
+pub fn evaluations_to_var_bytes(
+    num_coeffs: usize,
+    evals: &[BlsScalar],
+) -> Result<Vec<u8>, Error> {
+    let domain = EvaluationDomain::new(num_coeffs)?;
+    Ok(Evaluations::from_vec_and_domain(evals.to_vec(), domain).to_var_bytes())
+}
+
+/// Returns (domain bytes, evaluations) of an accepted encoding.
+pub fn evaluations_from_slice(
+    bytes: &[u8],
+) -> Result<(Vec<u8>, Vec<BlsScalar>), Error> {
+    let e = Evaluations::from_slice(bytes)?;
+    Ok((e.domain().to_bytes().to_vec(), e.evals))
+}
+
+pub fn canonical_domain_bytes(num_coeffs: usize) -> Result<Vec<u8>, Error> {
+    Ok(EvaluationDomain::new(num_coeffs)?.to_bytes().to_vec())
+}
+
+// ---------------------------------------------------------------------------
+// KZG
+// ---------------------------------------------------------------------------
+
+pub fn pp_commit_key(pp: &PublicParameters) -> &CommitKey {
+    &pp.commit_key
+}
+
+pub fn pp_opening_key(pp: &PublicParameters) -> &OpeningKey {
+    &pp.opening_key
+}
+
+pub fn pp_trim(
+    pp: &PublicParameters,
+    truncated_degree: usize,
+) -> Result<(CommitKey, OpeningKey), Error> {
+    pp.trim(truncated_degree)
+}
+
+pub fn commit_key_powers(ck: &CommitKey) -> &[G1Affine] {
+    &ck.powers_of_g
+}
+
+pub fn commit_key_from_powers(powers: Vec<G1Affine>) -> CommitKey {
+    CommitKey {
+        powers_of_g: powers,
+    }
+}
+
+pub fn commit_key_max_degree(ck: &CommitKey) -> usize {
+    ck.max_degree()
+}
+
+pub fn commit_key_truncate(
+    ck: &CommitKey,
+    degree: usize,
+) -> Result<CommitKey, Error> {
+    ck.truncate(degree)
+}
+
+pub fn commit(ck: &CommitKey, coeffs: &[BlsScalar]) -> Result<G1Affine, Error> {
+    ck.commit(&poly(coeffs)).map(|c| c.0)
+}
+
+pub fn compute_aggregate_witness(
+    polynomials: &[Vec<BlsScalar>],
+    point: &BlsScalar,
+    v_challenge: &BlsScalar,
+) -> Vec<BlsScalar> {
+    let polys: Vec<Polynomial> = polynomials.iter().map(|p| poly(p)).collect();
+    let refs: Vec<&Polynomial> = polys.iter().collect();
+    CommitKey::compute_aggregate_witness(&refs, point, v_challenge).to_vec()
+}
+
+pub fn opening_key_parts(
+    ok: &OpeningKey,
+) -> (G1Affine, dusk_bls12_381::G2Affine, dusk_bls12_381::G2Affine) {
+    (ok.g, ok.h, ok.x_h)
+}
+
+/// One KZG opening: (commitment to witness, claimed evaluation, commitment to
+/// polynomial).
+pub type Opening = (G1Affine, BlsScalar, G1Affine);
+
+pub fn batch_check(
+    ok: &OpeningKey,
+    points: &[BlsScalar],
+    openings: &[Opening],
+    transcript: &mut Transcript,
+) -> Result<(), Error> {
+    let proofs: Vec<_> = openings
+        .iter()
+        .map(|(w, e, c)| crate::commitment_scheme::verif_kzg_proof(*w, *e, *c))
+        .collect();
+    ok.batch_check(points, &proofs, transcript)
+}
+
+/// `AggregateProof::flatten` for `parts = [(evaluation, commitment)]`.
+pub fn flatten(
+    witness: G1Affine,
+    parts: &[(BlsScalar, G1Affine)],
+    v_challenge: &BlsScalar,
+) -> Opening {
+    let mut agg = AggregateProof::with_witness(Commitment(witness));
+    for (e, c) in parts {
+        agg.add_part((*e, Commitment(*c)));
+    }
+    let p = agg.flatten(v_challenge);
+    (
+        p.commitment_to_witness.0,
+        p.evaluated_point,
+        p.commitment_to_polynomial.0,
+    )
+}
+
+// ---------------------------------------------------------------------------
+// Crate-private checked decoders
+// ---------------------------------------------------------------------------
+
+pub fn opening_key_from_slice(bytes: &[u8]) -> Result<OpeningKey, Error> {
+    OpeningKey::from_slice(bytes).map_err(Error::from)
+}
+
+pub fn opening_key_to_bytes(ok: &OpeningKey) -> Vec<u8> {
+    ok.to_bytes().to_vec()
+}
+
+pub fn verifier_key_from_slice(bytes: &[u8]) -> Result<Vec<u8>, Error> {
+    VerifierKey::from_slice(bytes)
+        .map(|vk| vk.to_bytes().to_vec())
+        .map_err(Error::from)
+}
+
+/// Decodes a prover key and returns its re-encoding.
+pub fn prover_key_from_slice(bytes: &[u8]) -> Result<Vec<u8>, Error> {
+    ProverKey::from_slice(bytes).map(|pk| pk.to_var_bytes())
+}
+
+/// Decodes a compressed circuit; returns (constraints, public input rows).
+pub fn composer_from_bytes(
+    compressed: &[u8],
+    max_constraints: usize,
+) -> Result<crate::composer::Composer, Error> {
+    crate::composer::Composer::from_bytes(compressed, max_constraints)
+}
+
+// ---------------------------------------------------------------------------
+// Observation points
+// ---------------------------------------------------------------------------
+
+#[cfg(feature = "std")]
+mod obs {
+    use std::cell::Cell;
+    use std::sync::OnceLock;
+    use std::sync::atomic::{AtomicBool, Ordering};
+
+    std::thread_local! {
+        static FORCE_PROVE: Cell<bool> = const { Cell::new(false) };
+    }
+
+    /// While set on the calling thread, `quotient_poly::compute` keeps the low
+    /// `4n + 7` coefficients of the interpolated quotient and skips the
+    /// unsatisfied-circuit test (soundness experiments only).
+    pub fn set_force_prove(on: bool) {
+        FORCE_PROVE.with(|f| f.set(on));
+    }
+
+    pub fn force_prove() -> bool {
+        FORCE_PROVE.with(|f| f.get())
+    }
+
+    pub type Observer = dyn Fn(&'static str, usize) + Send + Sync + 'static;
+
+    static OBSERVER: OnceLock<Box<Observer>> = OnceLock::new();
+    static OBSERVING: AtomicBool = AtomicBool::new(false);
+
+    /// Installs the process-wide scheduling observer (once).
+    pub fn install_observer(f: Box<Observer>) -> bool {
+        OBSERVER.set(f).is_ok()
+    }
+
+    pub fn set_observing(on: bool) {
+        OBSERVING.store(on, Ordering::SeqCst);
+    }
+
+    #[inline]
+    pub fn sched_point(site: &'static str, item: usize) {
+        if OBSERVING.load(Ordering::Relaxed) {
+            if let Some(f) = OBSERVER.get() {
+                f(site, item);
+            }
+        }
+    }
+}
+
+#[cfg(feature = "std")]
+pub use obs::{
+    force_prove, install_observer, sched_point, set_force_prove,
+    set_observing,
+};
+
+#[cfg(not(feature = "std"))]
+pub fn force_prove() -> bool {
+    false
+}
+
+#[cfg(not(feature = "std"))]
+#[inline]
+pub fn sched_point(_site: &'static str, _item: usize) {}
+
+// ---------------------------------------------------------------------------
+// Composer snapshot types (filled by `Composer::verif_snapshot`)
+// ---------------------------------------------------------------------------
+
+pub use crate::commitment_scheme::{
+    VerifCommitKey as CommitKeyT, VerifOpeningKey as OpeningKeyT,
+};
+
+/// One constraint row: the 11 selectors in the order `q_m, q_l, q_r, q_o,
+/// q_f, q_c, q_arith, q_range, q_logic, q_fixed_group_add,
+/// q_variable_group_add`, and the witness indices wired to `a, b, c, d`.
+#[derive(Debug, Clone, PartialEq, Eq)]
+pub struct GateRow {
+    pub sel: [BlsScalar; 11],
+    pub w: [usize; 4],
+}
+
+/// A copy of everything a composer holds that keys and proofs depend on.
+#[derive(Debug, Clone, PartialEq, Eq)]
+pub struct Snapshot {
+    pub gates: Vec<GateRow>,
+    pub witnesses: Vec<BlsScalar>,
+    /// (row, value), sorted by row.
+    pub public_inputs: Vec<(usize, BlsScalar)>,
+}
